@@ -8,6 +8,7 @@ import BrushVerif.Proofs.Accumulate
   the `#[cached]` items and the regex LRU on every run);
 * on standard input a command runs as soon as, and only when, the text read so far forms a complete command:
   `accumulate_runs_maximal_complete_chunks`, `accumulate_loses_nothing`, `bad_token_never_waits`,
+  `completeness_decision_independent_of_character_width`, `stdin_chunks_independent_of_character_width`,
   `unterminated_kinds_incomplete` (over `Gen.IncompleteErrors`);
 * `$LINENO` on standard input equals `$LINENO` of the same text as a file: `stdin_lineno_eq_file_lineno`.
 -/
@@ -102,6 +103,47 @@ theorem bad_token_never_waits (parse : Str → Outcome) (input : Str) :
 theorem unterminated_kinds_incomplete :
     ∀ e : TokErr, isIncomplete e = "Unterminated".toList.isPrefixOf e.name.toList := by
   intro e; cases e <;> decide
+
+/-! ### the decision does not depend on the encoding width of the characters -/
+
+/-- Replace characters by others (of any UTF-8 width) without touching newline and backslash; if the parser's outcome
+class is indifferent to the replacement (it only renames non-syntax characters), so is the completeness decision.
+The decision never looks at a byte or character position. -/
+theorem completeness_decision_independent_of_character_width (σ : Char → Char) (hσ : SyntaxNeutral σ)
+    (parse : Str → Outcome) (hp : ∀ s, parse (s.map σ) = parse s) (input : Str) :
+    needsMoreInput parse (input.map σ) = needsMoreInput parse input :=
+  needsMoreInput_map hσ parse hp input
+
+/-- …and therefore standard input is cut into the same programs, character for character. -/
+theorem stdin_chunks_independent_of_character_width (σ : Char → Char) (hσ : SyntaxNeutral σ)
+    (parse : Str → Outcome) (hp : ∀ s, parse (s.map σ) = parse s) (lines : List Str) :
+    chunks (needsMoreInput parse) (lines.map (List.map σ)) =
+      (chunks (needsMoreInput parse) lines).map (List.map σ) :=
+  chunks_map_aux _ σ (needsMoreInput_map hσ parse hp) lines.length lines (Nat.le_refl _)
+
+example : SyntaxNeutral (fun c => if c = 'e' then 'é' else c) :=
+  ⟨fun c => by by_cases h : c = 'e' <;> simp [h], fun c => by by_cases h : c = 'e' <;> simp [h]⟩
+
+/-- A decision that compares the tokenizer's position (a count of characters: at an `is_incomplete` error the
+tokenizer has consumed the whole text) with the text's length in UTF-8 bytes is *not* independent of it. -/
+def utf8Len (s : Str) : Nat := (s.map Char.utf8Size).sum
+
+def needsMoreInputByteGuard (parse : Str → Outcome) (input : Str) : Bool :=
+  match parse input with
+  | .tok e => isIncomplete e && decide (utf8Len input ≤ input.length)
+  | .atEnd => true
+  | .near => false
+  | .ok => endsWithLineContinuation parse input
+
+theorem byte_length_guard_depends_on_character_width :
+    ¬ (∀ (σ : Char → Char), SyntaxNeutral σ → ∀ (parse : Str → Outcome), (∀ s, parse (s.map σ) = parse s) →
+        ∀ input, needsMoreInputByteGuard parse (input.map σ) = needsMoreInputByteGuard parse input) := by
+  intro h
+  have := h (fun c => if c = 'e' then 'é' else c)
+    ⟨fun c => by by_cases h : c = 'e' <;> simp [h], fun c => by by_cases h : c = 'e' <;> simp [h]⟩
+    (fun _ => .tok .UnterminatedSingleQuote) (fun _ => rfl) "echo 'e\n".toList
+  revert this
+  decide
 
 /-! ## `$LINENO` -/
 
